@@ -10,7 +10,7 @@ harness Harness/HC18_sched.v).
     unmodified generators over several shapes."""
 import time
 
-from vt.c18_util import boollist, coq_cases, ensure_dirs, interleave, natlist, natmat, patched, queue_fn, quiet_logs, zs_floor, zzmat, zlist
+from vt.c18_util import boollist, coq_cases, ensure_dirs, natlist, natmat, patched, queue_fn, quiet_logs, run_jobs, zs_floor, zzmat, zlist
 from vt.common import cz
 
 HEADER = ("From Coq Require Import List ZArith Bool.\nFrom RL4CO Require Import Env.FJSP Data.GenSched Harness.HC18_sched.\n"
@@ -152,13 +152,18 @@ def run_unit(ctx, proofs_ok):
                  dict(num_jobs=4, num_machines=6, min_ops_per_job=3, max_ops_per_job=4, min_eligible_ma_per_op=2, min_processing_time=2, max_processing_time=7)]
     if thorough:
         fj_shapes += [dict(num_jobs=20, num_machines=10), dict(num_jobs=15, num_machines=8, min_ops_per_job=2, max_ops_per_job=9, same_mean_per_op=False)]
-    for kw in fj_shapes:
+    fj_plan = [(kw, B) for kw in fj_shapes]
+    if thorough:      # bulk: 10^4 small rows
+        fj_plan += [(dict(num_jobs=3, num_machines=2, min_ops_per_job=1, max_ops_per_job=3), 1000)] * 6 + \
+                   [(dict(num_jobs=2, num_machines=3, min_ops_per_job=2, max_ops_per_job=4, same_mean_per_op=False), 1000)] * 4
+    for (kw, B) in fj_plan:
         s = seed()
         g = FJSPGenerator(**kw)
         td = g([B])
         for b in range(B):
             cases.append("(%s, %s, %s)" % (cz(g.min_processing_time), cz(g.max_processing_time), inst_lit(td, b)))
-            metas.append({"unit": "sched", "gen": "fjsp", "kind": "generated", "kwargs": kw, "torch_seed": s, "batch": B, "row": b, "observed": inst_json(td, b)})
+            metas.append({"unit": "sched", "gen": "fjsp", "kind": "generated", "kwargs": kw, "torch_seed": s, "batch": B, "row": b,
+                          "observed": inst_json(td, b) if B < 100 else None})
             ctx.seen({"fjsp_a": [s, b, kw]}, nontrivial=True)
             ctx.count("fjsp_generated_rows")
     jobs.append(("fjsp_prop", "Z * Z * inst", "check_fjsp_prop", cases, metas, "fjsp"))
@@ -168,13 +173,18 @@ def run_unit(ctx, proofs_ok):
     if thorough:
         js_shapes += [dict(num_jobs=15, num_machines=10), dict(num_jobs=10, num_machines=5, min_ops_per_job=3, max_ops_per_job=8, one2one_ma_map=False)]
     pads_with_machine = 0
-    for kw in js_shapes:
+    js_plan = [(kw, B) for kw in js_shapes]
+    if thorough:      # bulk: 10^4 small rows
+        js_plan += [(dict(num_jobs=3, num_machines=3), 1000)] * 6 + \
+                   [(dict(num_jobs=3, num_machines=2, min_ops_per_job=1, max_ops_per_job=3, one2one_ma_map=False), 1000)] * 4
+    for (kw, B) in js_plan:
         s = seed()
         g = JSSPGenerator(**kw)
         td = g([B])
         for b in range(B):
             cases.append("(%s, %s, %s)" % (cz(g.min_processing_time), cz(g.max_processing_time), inst_lit(td, b)))
-            meta = {"unit": "sched", "gen": "jssp", "kind": "generated", "kwargs": kw, "torch_seed": s, "batch": B, "row": b, "observed": inst_json(td, b)}
+            meta = {"unit": "sched", "gen": "jssp", "kind": "generated", "kwargs": kw, "torch_seed": s, "batch": B, "row": b,
+                    "observed": inst_json(td, b) if B < 100 else None}
             metas.append(meta)
             if g.one2one_ma_map:
                 M = g.num_mas
@@ -189,43 +199,43 @@ def run_unit(ctx, proofs_ok):
     jobs.append(("jssp_prop", "Z * Z * inst", "check_jssp_prop", cases, metas, "jssp"))
 
     cases, metas = [], []
-    for kw in [dict(), dict(num_stage=3, num_machine=2, num_job=5, min_time=1, max_time=4), dict(num_stage=1, num_machine=1, num_job=1, min_time=0, max_time=1),
-               dict(num_stage=2, num_machine=4, num_job=20)]:
+    ff_plan = [(kw, B) for kw in [dict(), dict(num_stage=3, num_machine=2, num_job=5, min_time=1, max_time=4), dict(num_stage=1, num_machine=1, num_job=1, min_time=0, max_time=1),
+                                  dict(num_stage=2, num_machine=4, num_job=20)]]
+    if thorough:
+        ff_plan += [(dict(num_stage=2, num_machine=2, num_job=4), 1000)] * 10
+    for (kw, B) in ff_plan:
         s = seed()
         g = FFSPGenerator(**kw)
         td = g([B])
         rt = td["run_time"]
         for b in range(B):
             cases.append("(%d, %d, %s, %s, %s)" % (g.num_job, g.num_machine_total, cz(g.min_time), cz(g.max_time), zzmat(rt[b].tolist())))
-            metas.append({"unit": "sched", "gen": "ffsp", "kind": "generated", "kwargs": kw, "torch_seed": s, "batch": B, "row": b, "run_time": rt[b].tolist()})
+            metas.append({"unit": "sched", "gen": "ffsp", "kind": "generated", "kwargs": kw, "torch_seed": s, "batch": B, "row": b})
             ctx.seen({"ffsp_a": [s, b, kw]}, nontrivial=True)
             ctx.count("ffsp_generated_rows")
     jobs.append(("ffsp_prop", "nat * nat * Z * Z * list (list Z)", "check_ffsp_prop", cases, metas, "ffsp"))
 
     cases, metas = [], []
-    for kw in [dict(), dict(num_job=3), dict(num_job=25, max_time_span=25), dict(num_job=6, min_job_weight=0.5, max_job_weight=2.0, min_process_time=0.25, max_process_time=3.0)]:
+    sm_plan = [(kw, B) for kw in [dict(), dict(num_job=3), dict(num_job=25, max_time_span=25),
+                                  dict(num_job=6, min_job_weight=0.5, max_job_weight=2.0, min_process_time=0.25, max_process_time=3.0)]]
+    if thorough:
+        sm_plan += [(dict(num_job=5), 1000)] * 10
+    for (kw, B) in sm_plan:
         s = seed()
         g = SMTWTPGenerator(**kw)
         td = g([B])
         for b in range(B):
             rows = [td[k][b].tolist() for k in ("job_due_time", "job_weight", "job_process_time")]
             cases.append("(%d, %s)" % (g.num_job, ", ".join("[" + "; ".join(cz(zs_floor(x, 30)) for x in r) + "]" for r in rows)))
-            metas.append({"unit": "sched", "gen": "smtwtp", "kind": "generated", "kwargs": kw, "torch_seed": s, "batch": B, "row": b,
-                          "job_due_time": rows[0], "job_weight": rows[1], "job_process_time": rows[2]})
+            metas.append({"unit": "sched", "gen": "smtwtp", "kind": "generated", "kwargs": kw, "torch_seed": s, "batch": B, "row": b})
             ctx.seen({"smtwtp_a": [s, b, kw]}, nontrivial=True)
             ctx.count("smtwtp_generated_rows")
     jobs.append(("smtwtp_prop", "nat * list Z * list Z * list Z", "check_smtwtp_prop", cases, metas, "smtwtp"))
 
     # ------------------------------------------------------------------ evaluate
-    from concurrent.futures import ThreadPoolExecutor
     t1 = time.time()
-
-    def one(job):
-        label, ctype, fn, cs, ms, sig = job
-        cs, ms = interleave(cs, ms, 2)
-        return ms, coq_cases(ctx, "sched_" + label, HEADER, ctype, fn, cs, ms, shard=(len(cs) + 1) // 2 if len(cs) > 60 else max(1, len(cs)))
-    with ThreadPoolExecutor(max_workers=4) as ex:
-        results = list(ex.map(one, jobs))
+    res = run_jobs(ctx, "sched", HEADER, [(l, t, f, c, m) for (l, t, f, c, m, sg) in jobs], cap=700 if thorough else 60)
+    results = [(ms, res.get(label)) for (label, _, _, cs, ms, sg) in jobs]
     stats = {}
     reported = set()
     for (label, _, _, cs, _, sig), (ms, codes) in zip(jobs, results):
